@@ -23,17 +23,25 @@
    vlib/c12.py, not proved.
 
    PART 3 classifies the generated inventory of internal invocations (Gen/GenInternalGit.v). *)
-From Coq Require Import List NArith Bool String Ascii.
+From Coq Require Import List NArith Bool.
+From Coq Require Import Init.Byte Strings.Byte.
 From Verif Require Import Base.Str Gen.GenProfile Gen.GenInternalGit.
 Import ListNotations.
 Open Scope N_scope.
 
-(* string literal -> code points (ASCII only); used for the hand-written git-side tables *)
-Fixpoint s2l (s : string) : str :=
-  match s with
-  | EmptyString => []
-  | String a s' => N_of_ascii a :: s2l s'
-  end.
+(* ASCII literals for the hand-written git-side tables: "--color"%lit is a list of bytes, s2l turns it
+   into code points.  (A private literal type rather than Coq's string: the extracted module is opened
+   in front of prelude.ml, where a type called string would shadow OCaml's.) *)
+Inductive lit := Lit (bs : list byte).
+Definition lit_of_bytes (bs : list byte) : lit := Lit bs.
+Definition bytes_of_lit (l : lit) : list byte := match l with Lit bs => bs end.
+Declare Scope lit_scope.
+Delimit Scope lit_scope with lit.
+Bind Scope lit_scope with lit.
+String Notation lit lit_of_bytes bytes_of_lit : lit_scope.
+
+Definition s2l (x : lit) : str := map Byte.to_N (bytes_of_lit x).
+Arguments s2l x%lit.
 
 Definition dd : str := [45; 45].                      (* the token -- *)
 Definition c_eqs : cp := 61.
@@ -299,7 +307,7 @@ Definition sep_value_opts : list str :=
            "--output-indicator-context"; "--ws-error-highlight"; "--skip-to"; "--rotate-to";
            "--diff-filter"; "--submodule"; "--stat-width"; "--stat-name-width"; "--stat-count";
            "--stat-graph-width"; "--abbrev"; "--word-diff-regex"; "--ignore-matching-lines";
-           "-O"; "-S"; "-G"; "-I"; "-l"]%string.
+           "-O"; "-S"; "-G"; "-I"; "-l"]%lit.
 
 Definition is_sep_value (t : str) : bool := mem_str t sep_value_opts.
 
@@ -377,15 +385,15 @@ Fixpoint dash_c_pairs (g : list str) : config :=
 
 Definition cfg_true (v : str) : bool :=
   let l := map lower1 v in
-  mem_str l (map s2l ["true"; "yes"; "on"; "1"]%string).
+  mem_str l (map s2l ["true"; "yes"; "on"; "1"]%lit).
 
-Definition cfg_bool (cfg : config) (k : string) : option bool :=
+Definition cfg_bool (cfg : config) (k : lit) : option bool :=
   match cfg_get cfg (s2l k) with Some v => Some (cfg_true v) | None => None end.
 
 Definition cfg_color_value (v : str) : str :=
   let l := map lower1 v in
   if str_eqb l (s2l "always") then s2l "always"
-  else if mem_str l (map s2l ["never"; "false"; "no"; "off"; "0"]%string) then s2l "never"
+  else if mem_str l (map s2l ["never"; "false"; "no"; "off"; "0"]%lit) then s2l "never"
   else s2l "auto".
 
 (* what the configuration says about a component (git-config(1), diff.c git_diff_ui_config) *)
@@ -422,7 +430,7 @@ Definition cfg_effect (c : comp) (cfg : config) : option str :=
   | CInterHunk => cfg_get cfg (s2l "diff.interhunkcontext")
   | CRenames =>
       match cfg_get cfg (s2l "diff.renames") with
-      | Some v => if mem_str (map lower1 v) (map s2l ["copies"; "copy"]%string) then Some (s2l "copies")
+      | Some v => if mem_str (map lower1 v) (map s2l ["copies"; "copy"]%lit) then Some (s2l "copies")
                   else if cfg_true v then Some (s2l "renames") else Some v_off
       | None => None
       end
@@ -432,7 +440,7 @@ Definition cfg_effect (c : comp) (cfg : config) : option str :=
 
 (* diff plumbing reads only git_diff_basic_config *)
 Definition is_plumbing (sub : str) : bool :=
-  mem_str sub (map s2l ["diff-tree"; "diff-index"; "diff-files"]%string).
+  mem_str sub (map s2l ["diff-tree"; "diff-index"; "diff-files"]%lit).
 
 Definition cfg_applies (sub : str) (c : comp) : bool :=
   if is_plumbing sub then match c with CIndent | CQuotePath => true | _ => false end else true.
@@ -456,7 +464,7 @@ Definition default_val (sub : str) (c : comp) : str :=
 
 (* git 2.39 git.c handle_options: the global options that take their value in the next token *)
 Definition git_value_globals : list str :=
-  map s2l ["-C"; "-c"; "--git-dir"; "--work-tree"; "--namespace"; "--super-prefix"; "--config-env"]%string.
+  map s2l ["-C"; "-c"; "--git-dir"; "--work-tree"; "--namespace"; "--super-prefix"; "--config-env"]%lit.
 
 (* the resolved value of component c for the command line argv under configuration cfg *)
 Definition effective (cfg : config) (argv : list str) (c : comp) : option str :=
@@ -510,8 +518,8 @@ Fixpoint pager_of_globals (g : list str) (cur : option bool) : option bool :=
   match g with
   | [] => cur
   | a :: g' =>
-      if mem_str a (map s2l ["--no-pager"; "-P"]%string) then pager_of_globals g' (Some false)
-      else if mem_str a (map s2l ["-p"; "--paginate"]%string) then pager_of_globals g' (Some true)
+      if mem_str a (map s2l ["--no-pager"; "-P"]%lit) then pager_of_globals g' (Some false)
+      else if mem_str a (map s2l ["-p"; "--paginate"]%lit) then pager_of_globals g' (Some true)
       else pager_of_globals g' cur
   end.
 
@@ -530,6 +538,21 @@ Definition tame (p : profile) (t : str) : bool :=
    mutually consistent (each is tame for the canonical values the others set) *)
 Definition pins_wf (p : profile) : bool :=
   forallb (fun o => is_dash o && negb (str_eqb o dd) && tame p o) (profile_options p).
+
+(* decidable forms of the two hypotheses of C12_profile_pins (Proofs: pins_not_outside_b_spec,
+   survivors_tame_b_spec) *)
+Definition pins_not_outside_b (p : profile) (g r : list str) : bool :=
+  forallb (fun o => negb (mem_str o g) && negb (mem_str o (from_dd r))) (profile_options p).
+
+Definition survivors_tame_b (p : profile) (r : list str) : bool :=
+  forallb (fun t => should_drop p t || tame p t) (before_dd r).
+
+(* (subcommand found, pins not outside, survivors tame) of an argument vector *)
+Definition hyps_b (p : profile) (args : list str) : bool * bool * bool :=
+  match find_sub args with
+  | None => (false, false, false)
+  | Some (g, _, r) => (true, pins_not_outside_b p g r, survivors_tame_b p r)
+  end.
 
 (* ================================================================================ PART 3 *)
 (* The inventory of internal invocations and what each parser needs. *)
@@ -565,8 +588,8 @@ Fixpoint inv_region_lits (its : list inv_item) : list str :=
   | _ :: r => inv_region_lits r
   end.
 
-Definition has_lit (l : list str) (s : string) : bool := mem_str (s2l s) l.
-Definition has_lit_prefix (l : list str) (s : string) : bool := existsb (starts_with (s2l s)) l.
+Definition has_lit (l : list str) (s : lit) : bool := mem_str (s2l s) l.
+Definition has_lit_prefix (l : list str) (s : lit) : bool := existsb (starts_with (s2l s)) l.
 
 Inductive parser_kind :=
   | PKPatch        (* unified diff text: parse_diff_added_lines / parse_diff_hunks *)
@@ -579,7 +602,7 @@ Inductive parser_kind :=
   | PKOpaque.      (* object names, exit codes, blobs, refs: no user-configurable formatting *)
 
 Definition diff_family (sub : str) : bool :=
-  mem_str sub (map s2l ["diff"; "show"; "log"; "diff-tree"; "diff-index"; "diff-files"; "whatchanged"]%string).
+  mem_str sub (map s2l ["diff"; "show"; "log"; "diff-tree"; "diff-index"; "diff-files"; "whatchanged"]%lit).
 
 (* `git show <rev>:<path>` / `git show :<path>`: the first computed operand is a template with a colon;
    the blob is streamed as is (textconv only with an explicit --textconv) *)
@@ -600,7 +623,7 @@ Definition classify_entry (sub : str) (lits : list str) (rest : list inv_item) :
   else if str_eqb sub (s2l "blame") then PKBlame
   else if str_eqb sub (s2l "status") then PKStatus
   else if str_eqb sub (s2l "grep") then PKGrep
-  else if mem_str sub (map s2l ["for-each-ref"; "rev-list"; "reflog"; "stash"; "ls-files"; "ls-tree"; "branch"; "remote"]%string)
+  else if mem_str sub (map s2l ["for-each-ref"; "rev-list"; "reflog"; "stash"; "ls-files"; "ls-tree"; "branch"; "remote"]%lit)
        && (has_lit_prefix lits "--format=" || has_lit_prefix lits "--pretty=") then PKFormatted
   else PKOpaque.
 
@@ -667,7 +690,7 @@ Definition exceptions : list (str * str * str) :=
      "display: git-ai diff prints git's hunks with the configured number of context lines, as git diff does");
     ("src/commands/diff.rs", "format_annotated_diff",
      "display: git-ai diff prints git's hunks with the configured number of context lines, as git diff does")
-  ]%string.
+  ]%lit.
 
 Definition is_exception (e : inv_entry) : bool :=
   existsb (fun x => match x with (f, g, _) => str_eqb f (inv_file e) && str_eqb g (inv_fn e) end) exceptions.
